@@ -321,7 +321,11 @@ def check_construct(rep):
     uris = [("aaa://host.example", "aaa", True), ("aaas://host.example:3868;transport=tcp;protocol=diameter", "aaas", True),
             ("aaa://host.example:3868;transport=sctp", "aaa", True), ("http://host.example", "http", True), ("aaaa://host.example", "aaaa", True),
             ("aa://host.example", "aa", True), ("://host.example", "", True), ("host.example", "", False), ("", "", False),
-            ("AAA://host.example", "AAA", True), ("sip://host.example:5060", "sip", True), ("aaass://host.example", "aaass", True)]
+            ("AAA://host.example", "AAA", True), ("sip://host.example:5060", "sip", True), ("aaass://host.example", "aaass", True),
+            # text around a well-formed URI (a line read from a file, a padded field): not a DiameterURI
+            ("aaa://host.example\n", "aaa", False), ("aaas://host.example:3868;transport=tcp;protocol=diameter\n", "aaas", False),
+            ("aaa://host.example\r\n", "aaa", False), ("aaa://host.example ", "aaa", False), ("\naaa://host.example", "", False),
+            ("aaa://host.example\naaa://other.example", "aaa", False), ("aaa://host.example\x00", "aaa", False)]
     udefs = "UVecs == <<" + ", ".join(
         f'[text |-> {T(list(u.encode()))}, out |-> ConstructURI([py |-> "str", scheme |-> {T(s)}, wellformed |-> {T(w)}, text |-> {T(list(u.encode()))}])]'
         for u, s, w in uris) + ">>"
@@ -350,6 +354,10 @@ def check_construct(rep):
         mkeys = [f'{ref[c]["vendor"] if ref[c]["vendor"] is not None else -1}/{ref[c]["code"]}' for c in mand.values()]
         cases = [("all", list(mand.values()))] + [(f"without {k}", [c for kk, c in mand.items() if kk != k]) for k in mand]
         cases += [("all twice reversed", list(mand.values())[::-1] + list(mand.values()))] if mand else []
+        if len(mand) >= 2:
+            # as many members as there are mandatory ones, but all of the same kind
+            for k in list(mand)[:2]:
+                cases.append((f"{k} {len(mand)} times, the other mandatory members absent", [mand[k]] * len(mand)))
         for label, members in cases:
             objs = [dictx.make_avp(byname[c], rng)[0] for c in members if c in byname]
             if not objs:
